@@ -247,6 +247,9 @@ func (b *Broker) RegisterNode(id NodeID, node Node, opt ...Option) error {
 	if id == "" {
 		return fmt.Errorf("unable to register node, node ID cannot be empty: %w", ErrInvalidParameter)
 	}
+	if node == nil {
+		return fmt.Errorf("unable to register node, node cannot be nil: %w", ErrInvalidParameter)
+	}
 
 	opts, err := getOpts(opt...)
 	if err != nil {
